@@ -229,7 +229,9 @@ def stream_cases(rng, tier):
             yield Case("typed_roundtrip", fields_line("Stream<ImageDict>", e, []), check=check_stream(e, True), model=False, tags=tags + cls)
 
 
-def check_font(d):
+def check_font(d, objs_in=()):
+    objs = {i + 1: o for i, o in enumerate(objs_in)}
+
     def chk(r):
         if r[0] != "OK":
             return "%s %s" % (r[0], r[1])
@@ -244,26 +246,61 @@ def check_font(d):
                 continue
             if k not in w1:
                 return "entry /%s lost" % k
-            if not T.equiv(v, w1[k], {}):
+            if not T.equiv(v, w1[k], objs):
                 return "entry /%s changed: %r -> %r" % (k, v, w1[k])
         return None
     return chk
 
 
 def font_cases(rng, tier):
-    for _ in range(40 if tier == "quick" else 400):
-        d = {"Type": Name("Font"), "Subtype": Name(rng.choice(["Type1", "TrueType"])), "BaseFont": Name(rng.choice(["Helvetica", "ABCDEF+Foo"]))}
-        if rng.random() < 0.6:
-            n = rng.randrange(4)
-            d.update({"FirstChar": 32, "LastChar": 32 + n - 1, "Widths": [rng.choice([250, 500.5, 722]) for _ in range(n)]})
-        tags = ["font"]
-        if rng.random() < 0.4:
-            d[rng.choice(["Zz1", "Name", "Custom"])] = rng.choice([7, Name("F1"), b"x"])
+    """Font (font.rs): every FontData variant — simple fonts (Type1, TrueType: TFont), composite fonts (Type0) and their
+    descendants (CIDFontType0/2: CIDFont) — with /Encoding as a name and as a dictionary whose /Differences start at
+    code 0, 1, 2 or 255, /ToUnicode, and entries no typed field maps (kept in `_other`)"""
+    fd = lambda: {"FontName": Name("ABCDEF+Foo"), "Flags": rng.choice([4, 32]), "FontBBox": [0, -200, 1000, 900.5],
+                  "ItalicAngle": rng.choice([0, -12.5])}
+    for _ in range(60 if tier == "quick" else 600):
+        objs = []
+        kind = rng.choice(["Type1", "TrueType", "Type0", "CIDFontType0", "CIDFontType2"])
+        d = {"Type": Name("Font"), "Subtype": Name(kind), "BaseFont": Name(rng.choice(["Helvetica", "ABCDEF+Foo"]))}
+        tags = ["font", "font:" + kind]
+        if kind in ("Type1", "TrueType"):
+            if rng.random() < 0.6:
+                n = rng.randrange(4)
+                d.update({"FirstChar": 32, "LastChar": 32 + n - 1, "Widths": [rng.choice([250, 500.5, 722]) for _ in range(n)]})
+            if rng.random() < 0.4:
+                d["FontDescriptor"] = fd()
+            if rng.random() < 0.6:
+                first = rng.choice([0, 1, 2, 39, 255])
+                names = [Name(rng.choice(H.GLYPHS)) for _ in range(1 if first == 255 else rng.randint(1, 3))]
+                d["Encoding"] = rng.choice([Name("WinAnsiEncoding"), Name("MacRomanEncoding"),
+                                            {"BaseEncoding": Name("WinAnsiEncoding"), "Differences": [first] + names},
+                                            {"BaseEncoding": Name("MacRomanEncoding"), "Differences": [first] + names + [first + 10, Name("bullet")] if first < 200 else [first] + names}])
+                tags.append("font:encoding")
+        elif kind == "Type0":
+            cid = {"Type": Name("Font"), "Subtype": Name("CIDFontType2"), "BaseFont": Name("ABCDEF+Foo"), "CIDSystemInfo": {"Registry": b"Adobe", "Ordering": b"Identity", "Supplement": 0},
+                   "FontDescriptor": fd()}
+            objs.append(cid)
+            d.update({"Encoding": Name("Identity-H"), "DescendantFonts": [Ref(1)]})
+        else:
+            d.update({"CIDSystemInfo": {"Registry": b"Adobe", "Ordering": b"Identity", "Supplement": 0}, "FontDescriptor": fd()})
+            if rng.random() < 0.5:
+                d["DW"] = rng.choice([1000, 500.5])
+            if rng.random() < 0.5:
+                d["W"] = [1, [500, 600.5], 10, 12, 250]
+            if rng.random() < 0.4:
+                d["CIDToGIDMap"] = Name("Identity")
+        if rng.random() < 0.3:
+            objs.append(Stream({}, b"/CIDInit /ProcSet findresource begin end"))
+            d["ToUnicode"] = Ref(len(objs))
+            tags.append("font:tounicode")
+        if rng.random() < 0.5:
+            for k in rng.sample(["Zz1", "Name", "Custom", "AAPL:Key"], rng.randint(1, 2)):
+                d[k] = rng.choice([7, Name("F1"), b"x", [1, None, 2.5], {"a": 1}])
             tags.append("class:font-other")
         keys = list(d)
         rng.shuffle(keys)
         d = {k: d[k] for k in keys}
-        yield Case("typed_roundtrip", fields_line("Font", d, []), check=check_font(d), model=False, tags=tags)
+        yield Case("typed_roundtrip", fields_line("Font", d, objs), check=check_font(d, objs), model=False, tags=tags)
 
 
 # ---------------------------------------------------------------------------------------------- containers on their own
@@ -520,8 +557,6 @@ def nontrivial(c):
 
 def classify(case, impl, model):
     tags = case.tags
-    if "class:font-other" in tags and impl and impl[0] == "OK":
-        return "C15-e"
     if "class:stream-direct" in tags and impl and impl[0] == "OK":
         return "C15-i"
     return None
